@@ -213,6 +213,19 @@ PROPS["C15"] = dict(
     assumptions=["schemas that Check rejects are discarded and counted"],
     jobs=[job("example", "^TestExample$", (4, 16), (2500, 25000), (600, 3000))],
 )
+PROPS["C18"] = dict(
+    pkg="c18", level="exploration",
+    technique="differential testing between two spellings (named enum rule vs inline list; regex type vs inline regex rule) plus model-based checks of Values/GetAST/Pattern/Len/Example against the generator's own item list and grammar tree",
+    level_text=("Bounded exploration: generated enum value lists (all scalar kinds, duplicates, escape re-spellings, inline / block / own-line comments, LF/CRLF layouts) are checked for duplicate detection, "
+                "source-order listing with kinds and attached comments, and validation equivalence with the inline list on a probe batch; generated RE2 patterns are checked for Pattern/Len/Example and "
+                "equivalence of the added regex type with an inline {regex} rule on matches and single-edit mutants. Sampled."),
+    level_note="trusted: Go regexp as RE2 reference (same engine as the library: the point is plumbing - delimiters, quoting, search vs full match); numerically equal numbers in different spellings inside one enum list are not generated",
+    rule=("enum lists of 0-8 items from an 18-item pool incl. pairs differing only in kind, strings containing // , ] and quotes; non-trivial = >=2 kinds or a comment; regex patterns from the printable-ASCII grammar with "
+          "escaped slashes/backslashes, anchors, tails after the closing slash; non-trivial = has a metacharacter; distinct by text"),
+    assumptions=["duplicates are judged on (kind, decoded text)"],
+    jobs=[job("enum", "^TestNamedEnum$", (2, 16), (3000, 30000), (600, 3000)),
+          job("regex", "^TestRegexType$", (2, 16), (2000, 20000), (600, 3000))],
+)
 
 _UNBUILT = "check under construction in this session (see DESIGN.md section 5 for the planned design)"
 NOT_APPLICABLE = [dict(property_id="C%02d" % i, reason=_UNBUILT) for i in range(1, 20) if "C%02d" % i not in PROPS]
